@@ -17,12 +17,13 @@ CONSTANTS
   InferLimit = %(infer)d
   ResetCounts = %(reset)s
   GuardsOn = %(guards)s
+  PopDefaultOnRaise = %(popdef)s
   MaxQueries = %(queries)d
   MaxRaises = %(raises)d
 %(props)s
 CHECK_DEADLOCK FALSE
 '''
-DEFAULT = dict(K=4, funcs='4', deps=2, rec=3, total=4, perfunc=3, perrec=1, infer=6, reset='TRUE', guards='TRUE', queries=2, raises=0)
+DEFAULT = dict(K=4, funcs='4', deps=2, rec=3, total=4, perfunc=3, perrec=1, infer=6, reset='TRUE', guards='TRUE', popdef='TRUE', queries=2, raises=0)
 INVS = ['BoundedWork', 'DepthBounded', 'Balanced', 'GuardsConsistent', 'Repeatable', 'NoPoison']
 
 
